@@ -18,6 +18,21 @@ CLAIMED["C15"] = dict(
     note="Trusted: Coq kernel + vm_compute, harness, constants translator. Handlers publishing to the topic being delivered (or cyclically) are outside the property and the theorem. Subscriber iteration order of CPython sets is pinned by giving consumers small integer hashes and verified on every case.",
     technique="Coq proof (invariant by induction on fuel/history with framing) + model/implementation correspondence",
     ref="5/C15")
+CLAIMED["C01"] = dict(
+    text="Coq theorems over the model of ticker.py for every wiring, root set and answer order (Run relation = all interleavings of answers): a component is dispatched only after every in-tick direct upstream has answered (C01_gate), nobody is dispatched or answers twice (C01_once), participants = reachability closure of the roots, invalid answers are rejected, progress and exact termination count for acyclic wirings, and the changes handed over are exactly the routed changes of all in-tick upstreams (C01_no_mixture). Tied to the real Ticker+EventRouter by exhaustive answer-order enumeration on small wirings, multi-tick histories and random DAGs; a Coq oracle re-checks the gate on every observed trace.",
+    note="Trusted: Coq kernel + vm_compute, harness playing the components at the Ticker API (update_component/skip_component/propagate). The nested scheduler reuses the same Ticker class, so the theorem applies per scheduler; its composition across nesting levels is covered by the whole-simulation checks (C05/C09). asyncio task scheduling between create_task and the callback is exercised, not modelled.",
+    technique="Coq proof (invariants over all answer interleavings) + model/implementation correspondence + Coq oracle on observed traces",
+    ref="5/C01")
+CLAIMED["C02"] = dict(
+    text="Coq theorems: every dispatch of every run is an Input exactly when the component is a root or a wired input was reported changed this tick (with exactly those changes), a Skip otherwise; nothing outside the roots' closure is touched; at the end every participant was dispatched exactly once (C02_tick, C02_untouched, C02_all_participants_dispatched_once); DeviceComponent reports a port iff it differs from the previous report (C02_diff, C02_diff_history). Tied to Ticker and DeviceComponent by correspondence runs (all answer orders on small wirings; exhaustive omit/repeat/change histories of the device component).",
+    note="Trusted: Coq kernel + vm_compute, harness (scripted device, probe adapters, recording producer). Python == on values is integer equality in the correspondence. Devices are assumed to return fresh mappings (a device mutating the dict it returned last time defeats last_outputs).",
+    technique="Coq proof (invariants over all answer interleavings; filter characterisation) + model/implementation correspondence",
+    ref="5/C02")
+CLAIMED["C08"] = dict(
+    text="Coq theorem C08_ticker_confluent: for deterministic components and an acyclic single-source wiring, any two runs of a tick under arbitrary answer orders dispatch every component with the same kind, time and changes (proved by induction on the rank of the wiring, using the gate and input-characterisation invariants); complete runs dispatch the same set. Tied to the real Ticker by running every answer order of small wirings and comparing all runs inside Coq (reason code 21).",
+    note="Partial: the theorem is at ticker level (one scheduler). Delivery interleavings across a whole simulation with a broker-like bus are explored against the real schedulers by the S-level harness where built; the shipped Kafka classes are never executed (no broker in the sandbox) -- only the StateConsumer/StateProducer contract they implement is exercised.",
+    technique="Coq proof (confluence by induction on wiring rank) + exhaustive answer-order correspondence",
+    ref="5/C08")
 NOT_YET = {}
 ALL = [f"C{n:02d}" for n in range(1, 21)]
 
